@@ -65,7 +65,7 @@ class ArmPolicy(symex.Policy):
     def limit_for(self, body, blk):
         if body.path == self.vm.b.path and blk in self.stop:
             return 0
-        return 3
+        return 4       # counted arms: up to three elements / entries
 
     def abandoned(self, st, body, blk):
         if body.path == self.vm.b.path and blk in self.stop:
